@@ -102,7 +102,8 @@ def main():
         },
         "engines": [{"name": "tlc+conformance", "path": "/verif/check", "serves_properties": sorted(CLAIMED),
                      "kind_free_text": "explicit TLA+ specification (spec/*.tla) checked with TLC; bound to the code by "
-                                       "replaying TLC-generated behaviours and validating recorded traces with TLC"}],
+                                       "replaying TLC-generated behaviours and validating recorded traces with TLC "
+                                       "(C17 additionally: Apalache proves the wrapper machine's invariants inductive)"}],
         "checks": checks,
         "not_applicable": na,
         "notes": "See DESIGN.md. Exit 0 held / 1 VIOLATION / 2 machinery failure.",
